@@ -110,6 +110,11 @@ func min(a, b int) int {
 func runC02(c *ctx) {
 	c.res.Rule = "real keygens: FROST and FROST-Taproot for n<=5 and every t<n, identifier sets short/long(32,40 bytes)/non-ASCII/adjacent/shared-prefix, schedules fifo/lifo/latest-first/random+dups; " +
 		"Doerner; CMP n=3 (t=1,2) with cached safe primes; each checked by the reference for every (t+1)-subset; non-trivial = all; distinct by (protocol,n,t,ids,policy,seed)"
+	c.res.Rule += "; the same key generations with ONE participant dealing a consistent polynomial of degree t-1, t+1, t+2 or a re-dealt one of degree t " +
+		"(FROST +/- taproot every n<=4 and t, one dealer position; CMP n=3,t=1): whenever all honest parties complete, their material must pass the same checker"
+	if c.replay != "" && c.c02Replay() {
+		return
+	}
 	pols := []string{"fifo", "lifo", "latest-first", "random"}
 	setNames := []string{"short", "names", "adjacent", "nonascii", "long32", "long40", "prefix"}
 	k := 0
@@ -178,8 +183,11 @@ func runC02(c *ctx) {
 			c.res.Violate("property", "C02/doerner-keygen", strings.Join(probs, "; "), keygenReplay{Spec: "doerner-keygen", IDs: []string{string(ids[0]), string(ids[1])}, Problems: probs})
 		}
 	}
+	// one participant deals a polynomial of the wrong degree / a re-dealt one
+	c.c02Dealers()
 	// CMP
 	usePrimeCache()
+	c.c02DealersCMP()
 	cmpCases := [][2]int{{3, 1}, {3, 2}}
 	if c.thorough() {
 		cmpCases = [][2]int{{2, 0}, {2, 1}, {3, 0}, {3, 1}, {3, 2}, {4, 1}, {4, 3}}
